@@ -4,7 +4,8 @@
    run cfg_now n ls : the responder model after ANY sequence ls of labels — new request with any request-hook
    outcome (accept / reject / pause / error), requestor cancel and update (any update-hook outcome), API
    pause / unpause / cancel / update, block-hook outcome at every block (continue / pause / error), send
-   outcome of every message (ok / failed = peer gone), the worker being occupied or freed, and any
+   outcome of every message (ok / failed = peer gone), the worker being occupied or freed, the executor's
+   FinishTask round trip being overtaken by the message queue's notifications (LGateHold / LFinish), and any
    resolution of the executor's select when several signals are pending — for ANY number n of blocks.
 
    Full statement of the property (kept visible): every request reaches exactly one outcome (completed
@@ -21,7 +22,9 @@ Open Scope N_scope.
 (* SAFETY, every reachable state: Protect called once and Unprotect once, exactly when the entry goes
    (p_protect); completed + cancelled notifications at most one in total, and then the entry is gone
    (p_once); one network-error notification per failed send of a message of the request (p_neterr); an
-   entry is in CompletingSend exactly while a terminal status of it waits to be sent (p_completing). *)
+   entry is in CompletingSend only while a terminal status of it waits to be sent, and such a status belongs
+   to such an entry or to an executor parked before FinishTask (p_completing); once the executor is out of
+   a response that is gone, no task of it is active or pending in the task queue (p_task). *)
 Theorem C05_safety : forall n ls, p_safety (fst (run cfg_now n ls)) = true.
 Proof. exact c05_safety. Qed.
 Print Assumptions C05_safety.
@@ -86,6 +89,15 @@ Example C05_nonvacuous :
   (quiescent a = true /\ st_code a = 0 /\ n_done a = 1 /\ n_net a = 0) /\
   (quiescent b = true /\ st_code b = 0 /\ n_done b = 1 /\ unprot b = 1) /\
   (quiescent c = true /\ st_code c = 0 /\ n_done c = 0 /\ n_net c = 1).
+Proof. vm_compute. repeat split. Qed.
+
+(* the Sent notification of the final status overtakes the worker's FinishTask: the entry is gone when
+   finishTask runs, which still marks the task done *)
+Example C05_finish_overtaken :
+  let ls := [(LNew HAccept, 0); (LGateHold GCont, 0); (LSend true, 0); (LSend true, 0)] in
+  let a := fst (run cfg_now 1 ls) in
+  let b := fst (run cfg_now 1 (ls ++ [(LFinish, 0)])) in
+  (st_code a = 0 /\ tq a = 2 /\ n_done a = 1 /\ quiescent a = false) /\ (tq b = 0 /\ quiescent b = true /\ unprot b = 1).
 Proof. vm_compute. repeat split. Qed.
 
 Example C05_monitor_runs :
